@@ -1,6 +1,7 @@
 use std::path::PathBuf;
 use std::{collections::HashMap, fs};
 
+use itertools::Itertools;
 use log::error;
 use rayon::iter::IntoParallelRefIterator;
 use rayon::prelude::*;
@@ -32,6 +33,9 @@ pub fn new_for_path_rec(base_path: &PathBuf, sub_path: Vec<String>) -> State {
         .into_iter()
         .map(|entry| entry.unwrap().path())
         .filter(|path| path.extension().map_or(false, |ex| ex.eq("md")))
+        // directory listing order is up to the file system: when two files map to the same key
+        // (a.md and a.md.md) the one that wins must not depend on it
+        .sorted()
         .collect::<Vec<PathBuf>>()
         .par_iter()
         .flat_map(|path| read_file(path, &sub_path))
